@@ -286,6 +286,16 @@ def S(n):
     return ("S", n)
 
 
+def ISL(b):
+    """concrete bytes that belong to the symbolic part (an "island"): used to start the symbolic part on an item
+    boundary and to keep everything that follows a symbolic length field inside it"""
+    return ("I", b)
+
+
+def _seglen(x):
+    return len(x) if isinstance(x, bytes) else (x[1] if x[0] == "S" else len(x[1]))
+
+
 def layout(which, segs, fixed=None):
     """Split an A-ASSOCIATE-RQ/-AC template (fixed part + variable-item segments; bytes = concrete, S(n) = n
     symbolic bytes; PDU length field correct) into
@@ -296,17 +306,23 @@ def layout(which, segs, fixed=None):
     Returns (prefix, n, cons, suffix)."""
     fixed = [FIXED] if fixed is None else fixed
     body = list(fixed) + list(segs)
-    ln = sum(len(x) if isinstance(x, bytes) else x[1] for x in body)
+    ln = sum(_seglen(x) for x in body)
     allsegs = [(b"\x01" if which == "RQ" else b"\x02") + b"\x00" + L.u32(ln)] + body
     first = min(k for k, x in enumerate(allsegs) if not isinstance(x, bytes))
     last = max(k for k, x in enumerate(allsegs) if not isinstance(x, bytes))
+    if any((not isinstance(x, bytes)) and x[0] == "I" for x in allsegs):
+        # a template with symbolic length fields: the WHOLE PDU is one symbolic bytes object.  (Measured: as soon as
+        # a part of the buffer is concrete, CrossHair slices it into Python lists, every slice of those with a
+        # symbolic bound is realised value by value, and a 4-byte hole costs > 900 paths instead of 5.)
+        first, last = 0, len(allsegs) - 1
     prefix = b"".join(allsegs[:first])
     suffix = b"".join(allsegs[last + 1:])
     pos, cons = 0, []
     for x in allsegs[first:last + 1]:
-        if isinstance(x, bytes):
-            cons.append((pos, pos + len(x), x))
-            pos += len(x)
+        if isinstance(x, bytes) or x[0] == "I":
+            c = x if isinstance(x, bytes) else x[1]
+            cons.append((pos, pos + len(c), c))
+            pos += len(c)
         else:
             pos += x[1]
     return prefix, pos, cons, suffix
@@ -330,8 +346,8 @@ def _templates():
 
     The symbolic part of a template runs from its first to its last symbolic byte; the concrete bytes in between
     ("islands") are imposed as solver constraints, the concrete prefix is ordinary bytes.  Per-path cost grows with
-    the number of island bytes (each is a solver-constrained symbol), so templates put the item under attack LAST
-    in the PDU (pynetdicom does not depend on item order).  A concrete suffix is only possible when no symbolic
+    the number of island bytes (each is a solver-constrained symbol), so templates put only the item under attack after
+    the 74-byte fixed part (pynetdicom does not require the other items to decode a PDU).  A concrete suffix is only possible when no symbolic
     byte is a length field (AE-title / version / reserved-byte templates).
     Sub-item templates: the sub-item's own length field is symbolic (2 bytes), so it may be right, short, long,
     zero or oversize.  The quick tier uses smaller variants, the thorough tier all."""
@@ -341,38 +357,38 @@ def _templates():
         for n in range(1, N_TAIL + 1):
             t["%s-tail%d" % (w, n)] = (w, [S(n)])                       # ANY bytes right after the fixed part
             if TH or w == "RQ":
-                t["%s-app_pc-tail%d" % (w, n)] = (w, [APP, PC[w], S(n)])  # ... after valid app-context + pres-context
+                t["%s-app_pc-tail%d" % (w, n)] = (w, [ISL(APP + PC[w]), S(n)])  # ... after valid app-context + pres-context
         # the user-information item header itself (type, reserved, length) symbolic, valid content
-        t[w + "-ui-header"] = (w, [APP, PC[w], S(4), ML])
+        t[w + "-ui-header"] = (w, [S(4), ISL(ML)])
     sub = {
         0x51: [S(4)], 0x53: [S(4)], 0x58: [S(8 if TH else 5)], 0x59: [S(6 if TH else 3)],
         0x52: [U123, S(1)], 0x55: [b"VER", S(1)],
-        0x54: [S(2), U123, S(2)],
+        0x54: [S(2), U123, S(1), ISL(b"\x00")],
         0x56: [S(2), U123, S(3 if TH else 1)],
-        0x57: ([S(2), b"1.2", S(2), b"1.3", S(2), S(2), b"1.4"] if TH else [b"\x00\x03", b"1.2", S(2), b"1.3", S(2), b"\x00\x03", b"1.4"]),
+        0x57: ([S(2), b"1.2", S(2), b"1.3", S(2), S(2), ISL(b"1.4")] if TH else [b"\x00\x03", b"1.2", S(2), b"1.3", S(2), ISL(b"\x00\x03" + b"1.4")]),
     }
     for typ, body in sub.items():
-        n = 2 + 2 + sum(len(x) if isinstance(x, bytes) else x[1] for x in body)
-        t["RQ-sub%02x" % typ] = ("RQ", [APP, PC["RQ"]] + ui_wrap(n, [L.u8(typ), S(1), S(2)] + body))
+        n = 2 + 2 + sum(_seglen(x) for x in body)
+        t["RQ-sub%02x" % typ] = ("RQ", ui_wrap(n, [ISL(L.u8(typ)), S(1), S(2)] + body))
     n = 4 + (6 if TH else 3)
-    t["AC-sub59"] = ("AC", [APP, PC["AC"]] + ui_wrap(n, [b"\x59", S(1), S(2), S(6 if TH else 3)]))
+    t["AC-sub59"] = ("AC", ui_wrap(n, [ISL(b"\x59"), S(1), S(2), S(6 if TH else 3)]))
     n = 4 + 2 + 5 + 2
-    t["AC-sub54"] = ("AC", [APP, PC["AC"]] + ui_wrap(n, [b"\x54", S(1), S(2), S(2), U123, S(2)]))
+    t["AC-sub54"] = ("AC", ui_wrap(n, [ISL(b"\x54"), S(1), S(2), S(2), U123, S(1), ISL(b"\x01")]))
     # variable items with symbolic header fields (placed last)
-    t["RQ-app"] = ("RQ", [PC["RQ"], UI_MIN, b"\x10", S(1), S(2), b"1.2.840.10008.3.1.1.", S(1)])
+    t["RQ-app"] = ("RQ", [ISL(b"\x10"), S(1), S(2), b"1.2.840.10008.3.1.1.", S(1)])
     if TH:
-        t["RQ-pc"] = ("RQ", [APP, UI_MIN, b"\x20", S(1), S(2), S(4), b"\x30", S(1), S(2), AB, b"\x40", S(1), S(2), TS])
-        t["AC-pc"] = ("AC", [APP, UI_MIN, b"\x21", S(1), S(2), S(4), b"\x40", S(1), S(2), TS])
-        t["AC-pc-empty-ts"] = ("AC", [APP, UI_MIN, b"\x21", S(1), S(2), S(4), b"\x40", S(1), S(2)])
+        t["RQ-pc"] = ("RQ", [ISL(b"\x20"), S(1), S(2), S(4), b"\x30", S(1), S(2), AB, b"\x40", S(1), S(2), TS])
+        t["AC-pc"] = ("AC", [ISL(b"\x21"), S(1), S(2), S(4), b"\x40", S(1), S(2), TS])
+        t["AC-pc-empty-ts"] = ("AC", [ISL(b"\x21"), S(1), S(2), S(4), b"\x40", S(1), S(2)])
     # smaller cuts of the same (quick and thorough)
-    t["RQ-pc-head"] = ("RQ", [APP, UI_MIN, b"\x20", S(1), S(2), S(4), b"\x30\x00" + L.u16(len(AB)) + AB, b"\x40\x00" + L.u16(len(TS)) + TS])
-    t["RQ-pc-sublens"] = ("RQ", [APP, UI_MIN, b"\x20\x00" + L.u16(4 + 4 + len(AB) + 4 + len(TS)) + b"\x01\x00\x00\x00",
-                                 b"\x30\x00", S(2), AB, b"\x40\x00", S(2), TS])
-    t["AC-pc-head"] = ("AC", [APP, UI_MIN, b"\x21", S(1), S(2), S(4), b"\x40\x00" + L.u16(len(TS)) + TS])
-    t["AC-pc-ts"] = ("AC", [APP, UI_MIN, b"\x21\x00" + L.u16(4 + 4 + len(TS)) + b"\x01\x00", S(1), b"\x00\x40", S(1), S(2), TS])
-    t["AC-pc-empty-ts-head"] = ("AC", [APP, UI_MIN, b"\x21\x00", S(2), b"\x03\x00", S(1), b"\x00\x40\x00", S(2)])
-    t["AC-pc-two-subitems"] = ("AC", [APP, b"\x21\x00", S(2), b"\x01\x00", S(1), b"\x00\x40\x00\x00\x00", ML])
-    t["RQ-pc-in-pc"] = ("RQ", [APP, UI_MIN, b"\x20\x00", S(2), b"\x01\x00\x00\x00", S(1), S(1), S(2), S(2)])
+    t["RQ-pc-head"] = ("RQ", [ISL(b"\x20"), S(1), S(2), S(4), b"\x30\x00" + L.u16(len(AB)) + AB, ISL(b"\x40\x00" + L.u16(len(TS)) + TS)])
+    t["RQ-pc-sublens"] = ("RQ", [b"\x20\x00" + L.u16(4 + 4 + len(AB) + 4 + len(TS)) + b"\x01\x00\x00\x00",
+                                 ISL(b"\x30\x00"), S(2), AB, b"\x40\x00", S(2), ISL(TS)])
+    t["AC-pc-head"] = ("AC", [ISL(b"\x21"), S(1), S(2), S(4), ISL(b"\x40\x00" + L.u16(len(TS)) + TS)])
+    t["AC-pc-ts"] = ("AC", [b"\x21\x00" + L.u16(4 + 4 + len(TS)) + b"\x01\x00", S(1), b"\x00\x40", S(1), S(2), ISL(TS)])
+    t["AC-pc-empty-ts-head"] = ("AC", [ISL(b"\x21\x00"), S(2), b"\x03\x00", S(1), b"\x00\x40\x00", S(2)])
+    t["AC-pc-two-subitems"] = ("AC", [ISL(b"\x21\x00"), S(2), b"\x01\x00", S(1), b"\x00\x40\x00\x00\x00", ISL(ML)])
+    t["RQ-pc-in-pc"] = ("RQ", [ISL(b"\x20\x00"), S(2), b"\x01\x00\x00\x00", S(1), S(1), S(2), S(2)])
     # one symbolic character inside each AE-title field (first, middle, last position); protocol version and reserved bytes
     for pos in ((0, 7, 15) if TH else (0, 15)):
         called = [L.ae16("ANY-SCP")[:pos], S(1), L.ae16("ANY-SCP")[pos + 1:]]
@@ -412,13 +428,19 @@ def assume_fixed(data, cons):
 
 
 TEMPLATES = _templates()
+# quick tier: the templates whose exhaustive exploration takes < ~1 min CPU (binary fields, lengths, types); templates
+# in which a symbolic character reaches pydicom's UID / the AE validator cost one path per character value and run
+# in the thorough tier only
+QUICK = ["RQ-tail1", "RQ-tail2", "RQ-tail3", "RQ-tail4", "AC-tail1", "AC-tail2", "AC-tail3", "AC-tail4",
+         "RQ-sub51", "RQ-sub53", "RQ-sub58", "RQ-sub59", "AC-sub59", "RQ-pc-head", "AC-pc-head", "AC-pc-ts",
+         "AC-pc-empty-ts-head", "AC-pc-two-subitems", "RQ-pc-in-pc", "RQ-version", "AC-version", "RQ-reserved"]
 _T = TEMPLATES[shard("t", "RQ-tail1")]
 T_PREFIX, T_N, T_FIXED, T_SUFFIX = layout(*_T)
 T_SIZE = len(T_PREFIX) + T_N + len(T_SUFFIX)
 
 
 def _template_shards():
-    return [{"t": k} for k in TEMPLATES]
+    return [{"t": k} for k in TEMPLATES if TH or k in QUICK]
 
 
 @harness(
@@ -436,14 +458,72 @@ def _template_shards():
            "version and reserved bytes of the fixed part symbolic" % N_TAIL,
     stubs=["FakeRawSocket; make_provider; bytes() inside pynetdicom.dul returns the equal source buffer (checked); warnings silenced"],
     outside="more than one or two symbolic characters per string field; fully arbitrary tails longer than %d bytes" % N_TAIL,
-    findings=["C02-ts-name-none"],
 )
-def assoc_template(sym: bytes, closed: bool) -> bool:
+def assoc_template(sym: bytes) -> bool:
     """
     pre: len(sym) == T_N
-    pre: not kf.skip("C02-ts-name-none", sym=sym)
     post: _ == True
     """
     assume_fixed(sym, T_FIXED)
     data = T_PREFIX + sym + T_SUFFIX if T_SUFFIX else T_PREFIX + sym
-    return judge(receive(data, closed, T_SIZE))
+    return judge(receive(data, True, T_SIZE))      # the PDU is complete: what the peer does afterwards is irrelevant
+
+
+# ---------------------------------------------------------------------------------------------
+# 6. no false rejection: what the reference encoder produces from a legal value is accepted
+# ---------------------------------------------------------------------------------------------
+def legal_assoc(which, npc, cid0, cid1, res, a, b, c, f, g, extra):
+    """A legal A-ASSOCIATE-RQ / -AC value (PS3.8 9.3.2 / 9.3.3, PS3.7 Annex D): application context, 1-2 presentation
+    contexts (AC: first with any result 0..4 - a rejected context carries an EMPTY transfer-syntax name, which PS3.8
+    Table 9-18 allows: 'not significant' -, second accepted), user information = maximum length + implementation class
+    UID + one optional further sub-item chosen by `extra`."""
+    items = [("app", "1.2.840.10008.3.1.1.1")]
+    for n, cid in enumerate([cid0, cid1][:npc]):
+        if which == "RQ":
+            items.append(("pcrq", cid, [("abs", "1.2.840.10008.1.1"), ("ts", "1.2.840.10008.1.2")] + ([("ts", "1.2.840.10008.1.2.1")] if n == 0 else [])))
+        else:
+            r = res if n == 0 else 0
+            items.append(("pcac", cid, r, [("ts", "1.2.840.10008.1.2" if (n == 1 or res == 0) else "")]))
+    ui = [("maxlen", a), ("impl_uid", "1.2.826.0.1.3680043.9.3811.2.1.0")]
+    if extra == 1:
+        ui.append(("impl_ver", "PYNETDICOM_210"))
+    elif extra == 2:
+        ui.append(("async", b, c))
+    elif extra == 3:
+        ui.append(("role", "1.2.840.10008.5.1.4.1.1.2", 1 if f else 0, 1 if g else 0))
+    elif extra == 4:
+        ui.append(("ext", "1.2.840.10008.5.1.4.1.1.2", bytes([b % 256, c % 256])))
+    elif extra == 5:
+        ui.append(("cext", "1.2.840.10008.5.1.4.1.1.88.22", "1.2.840.10008.4.2", ["1.2.840.10008.5.1.4.1.1.88.11"]))
+    elif extra == 6:
+        ui.append(("uid_rq", 1 + b % 5, 1 if f else 0, b"user", b"pw") if which == "RQ" else ("uid_ac", bytes([c % 256])))
+    items.append(("ui", ui))
+    return (which, 1, "ANY-SCP", "ECHOSCU", items)
+
+
+@harness(
+    "C02", timeout=(150, 900),
+    shards=[{"pdu": "RQ"}, {"pdu": "AC"}],
+    functions=["dul:DULServiceProvider._read_pdu_data", "dul:DULServiceProvider._decode_pdu", "pdu:A_ASSOCIATE_RQ.decode", "pdu:A_ASSOCIATE_AC.decode",
+               "pdu_items:<every item class>.decode"],
+    bounds="legal A-ASSOCIATE-RQ / -AC values encoded by the reference encoder: 1-2 presentation contexts with any odd id, AC result any "
+           "0..4 (rejected context with empty transfer-syntax name), maximum length any 32-bit value, one optional user-information "
+           "sub-item of each kind with symbolic numbers / role bits",
+    stubs=["FakeRawSocket; make_provider; reference encoder spec/ps38_layout.py"],
+    outside="other strings than the fixed legal ones (C01 enumerates string lengths)",
+)
+def accept_legal(npc: int, cid0: int, cid1: int, res: int, a: int, b: int, c: int, f: bool, g: bool, extra: int) -> bool:
+    """
+    pre: 1 <= npc <= 2 and 0 <= cid0 <= 127 and 0 <= cid1 <= 127 and 0 <= res <= 4
+    pre: 0 <= a <= 4294967295 and 0 <= b <= 65535 and 0 <= c <= 65535 and 0 <= extra <= 6
+    post: _ == True
+    """
+    which = shard("pdu", "RQ")
+    npc, extra = concrete(npc), concrete(extra)
+    if which == "RQ" and res != 0:
+        return True
+    if extra == 3 and not (f or g):
+        return True
+    v = legal_assoc(which, npc, 2 * cid0 + 1, 2 * cid1 + 1, res, a, b, c, f, g, extra)
+    data = L.encode_pdu(v)
+    return judge(receive(data, True, len(data)), must_accept=L.EVENT_OF[which])
